@@ -258,6 +258,8 @@ def splice_loops(body, loops, what):
     if not loops:
         return body
     offs = find_loops(body, bool(loops.get('do_while')))
+    if loops.get('optional') and len(offs) == 0:
+        return body     # the function has no loop (any more): it is judged by its postconditions alone
     for o in loops:
         if isinstance(o, int) and o >= len(offs):
             raise Broken('EXTRACTION-BROKEN %s: loop ordinal %d not found (%d loops)' % (what, o, len(offs)))
@@ -290,7 +292,7 @@ class FuncSpec:
       contract  list of clauses: ('requires', expr) | ('ensures', '[Cxx] text', expr) | ('assigns', targets)
       aliases   dict name -> expansion, emitted as #define before the body, #undef after
       rules     counted rewrite rules
-      loops     {ordinal: contract text, 'count': n}
+      loops     {ordinal: contract text, 'count': n[, 'optional': True: a body without any loop is accepted as it is]}
       prologue  C text inserted at the start of the body (ghost only)
       slice_from  program slice (DESIGN 3.3 R5): regex that must match exactly once in the body; only the text from that match to the end
                 of the body is kept (everything before it is dropped and named in the evidence)
